@@ -246,7 +246,20 @@ Theorem C02_composes_implies_couplings (op : R -> R -> R) (D : R -> Prop) n (XL 
   forall i, (i < n)%nat ->
     nth i (fst (frechet_op RN op XL XR YL YR)) 0 <= nth i s 0 <= nth i (snd (frechet_op RN op XL XR YL YR)) 0.
 Proof. exact (frechet_op_sound_from_compose op D n XL XR YL YR x y pi s). Qed.
+(* BEST POSSIBLE, in the same terms: the Frechet bounds are the LEAST sound bounds - whatever arrays (BL, BR) bound the outcomes of every pair of
+   samples bounded by the operands, they contain frechet_left / frechet_right at every step (together with C02_frechet_composes: the Frechet
+   result is sound, and it lies inside every other sound result) *)
+From PUN Require Import Proofs.ComposeTight.
+Theorem C02_frechet_is_least_sound (op : R -> R -> R) (D : R -> Prop) n (XL XR YL YR BL BR : list R) i :
+  (forall a a', D a -> a <= a' -> D a') -> (forall a a' b b', D a -> D b -> a <= a' -> b <= b' -> op a b <= op a' b') ->
+  length XL = n -> length XR = n -> length YL = n -> length YR = n ->
+  Rsorted XL -> Rsorted XR -> Rsorted YL -> Rsorted YR -> ple XL XR -> ple YL YR ->
+  (forall j, (j < n)%nat -> D (nth j XL 0)) -> (forall j, (j < n)%nat -> D (nth j YL 0)) -> length BL = n ->
+  (forall u v, bounds XL XR u -> bounds YL YR v -> bounds BL BR (map2 op u v)) -> (i < n)%nat ->
+  nth i BL 0 <= frechet_left RN op XL YL i /\ frechet_right RN op XR YR i <= nth i BR 0.
+Proof. intros. eapply (tight_inside_sound op D) with (XL' := XL) (XR' := XR) (YL' := YL) (YR' := YR); eauto using ple_refl. Qed.
 Print Assumptions C02_frechet_composes.
+Print Assumptions C02_frechet_is_least_sound.
 Print Assumptions C02_translated_operations_sound.
 Print Assumptions C02_expression_sound.
 Print Assumptions C02_operations_sound.
